@@ -40,7 +40,7 @@ let () = main_loop (fun toks ->
     match ukind with
     | None -> (try Hashtbl.find funs_tbl key with Not_found -> raise (Missing ("F " ^ string_of_int ki ^ ":" ^ snd key)))
     | Some uk ->
-        let m = uri_validate (field fs "pf" = "1") uk (if uk = URelative then (fun _ -> false) else sre) v in
+        let m = uri_validate uk (if uk = URelative then (fun _ -> false) else sre) v in
         (match Hashtbl.find_opt funs_tbl key with
          | Some b when b <> m -> failwith ("URI-MODEL-DIFFERS validator " ^ string_of_int ki ^ " value " ^ snd key)
          | _ -> m) in
